@@ -90,6 +90,20 @@ SCENARIOS = [
         # (one more publication, so that the files left stale by a cut in
         # the re-publication above - a known finding - are written again)
         {"a": "RoaAdd", "c": "B", "r": ["p1", "a2"]}, {"a": "StepAll"}]},
+    # requests of a child that is not hosted by the instance, as signed
+    # RFC 6492 messages (CaManager::rfc6492): issuance without and with a
+    # resource limit, a second key, the call-in of a suspended child (two
+    # commands for one request), revocation
+    {"id": "remote", "keys": 360, "top": TOP, "prefix": WITH_ROA + [
+        {"a": "AddForeign", "c": "F", "p": "B", "res": ["p1"]}],
+     "chain": [
+        {"a": "FIssue", "c": "F", "x": "cur", "lim": [], "nolim": True},
+        {"a": "StepAll"},
+        {"a": "FIssue", "c": "F", "x": "new", "lim": ["p1"], "nolim": False},
+        {"a": "StepAll"},
+        {"a": "ChildSuspend", "p": "B", "c": "F"}, {"a": "StepAll"},
+        {"a": "FList", "c": "F"}, {"a": "StepAll"},
+        {"a": "FRevoke", "c": "F", "x": "cur"}, {"a": "StepAll"}]},
     # suspend / unsuspend / shrink / remove a child, delete a CA
     {"id": "remove", "keys": 200, "top": TOP, "prefix": WITH_ROA, "chain": [
         {"a": "ChildSuspend", "p": "A", "c": "B"}, {"a": "StepAll"},
@@ -100,7 +114,7 @@ SCENARIOS = [
         {"a": "DeleteCa", "c": "B"}, {"a": "StepAll"}]},
 ]
 
-QUICK_CASES = 200
+QUICK_CASES = 220
 CHUNK = 6
 
 KEEP_OBS = ("load", "logok", "memok", "objsbad", "dk", "srvclean",
